@@ -8,11 +8,13 @@ import (
 	"os"
 
 	"verifharness/internal/c17"
+	"verifharness/internal/pc"
 	"verifharness/internal/rep"
 )
 
 var commands = map[string]func(args []string) *rep.Report{
 	"c17": c17.Run,
+	"c06": pc.Run,
 }
 
 func main() {
